@@ -19,7 +19,7 @@ from harness.props import c01 as C01
 RULE = ('signed Interests/Data with every shipped signer (digest, HMAC, RSA-2048, ECDSA P-256/384/521, Ed25519, null) and '
         'random parameters; mutants of each wire: byte substitutions at every position (3 values per position quick / all 255 '
         'thorough on a subset), every truncation, TLV-level edits (delete / duplicate / swap / insert unknown critical and '
-        'non-critical element) at every level. non-trivial = a mutant that still parses or the original; distinct by wire hash')
+        'non-critical element), the value of every top-level element cut short or extended with all Lengths fixed up. non-trivial = a mutant that still parses or the original; distinct by wire hash')
 ASSUMPTIONS = ['unforgeability of the signature schemes / collision resistance of SHA-256 are hypotheses (C02_tamper_rejected); '
                'the run checks them empirically against pycryptodome for the generated mutants']
 
@@ -143,6 +143,14 @@ def check_packet(ctx, M, kind, wire, rec, verify, label, mutate=True):
             muts.append(('dup', G.tlv(t0, TG.ser(els[:i] + [els[i]] + els[i:]))))
             if i + 1 < len(els):
                 muts.append(('swap', G.tlv(t0, TG.ser(els[:i] + [els[i + 1], els[i]] + els[i + 2:]))))
+            # the VALUE of one element cut short / extended, every enclosing Length fixed up (a well-formed packet
+            # again: e.g. a SignatureValue that is a proper prefix / an extension of the genuine one)
+            et, ev = els[i]
+            cuts = {0, 1, len(ev) // 2, len(ev) - 1} if not ctx.thorough else set(range(len(ev)))
+            for k in sorted(c for c in cuts if 0 <= c < len(ev)):
+                muts.append(('cut', G.tlv(t0, TG.ser(els[:i] + [(et, ev[:k])] + els[i + 1:]))))
+            for extra in (b'\x00', ev[:1] or b'\x01', bytes(7)):
+                muts.append(('ext', G.tlv(t0, TG.ser(els[:i] + [(et, ev + extra)] + els[i + 1:]))))
     for mk, w2 in muts:
         st2 = parsed_state(w2)
         if st2 is None:
